@@ -1,0 +1,29 @@
+//go:build verif
+
+// Machine-checked contracts for package syncutil (comment-only; read by /verif/govc).
+// Property C14: Counters methods index a fixed-size slice; every caller must stay in range.
+
+package syncutil
+
+//@ func Counters.Len
+//@   nopanic
+//@   ensures result == len(c)
+
+//@ func Counters.Get
+//@   requires 0 <= i && i < len(c)
+//@   nopanic
+
+//@ func Counters.Set
+//@   requires 0 <= i && i < len(c)
+//@   nopanic
+//@   modifies mem c
+
+//@ func Counters.Increment
+//@   requires 0 <= i && i < len(c)
+//@   nopanic
+//@   modifies mem c
+
+//@ func Counters.Decrement
+//@   requires 0 <= i && i < len(c)
+//@   nopanic
+//@   modifies mem c
